@@ -1,6 +1,7 @@
 package main
 
 import (
+	"time"
 	"fmt"
 	"go/constant"
 	"go/token"
@@ -149,6 +150,7 @@ type Exec struct {
 	ctx     *Ctx
 	solver  *Solver
 	solver2 *Solver
+	deadline time.Time    // harness time limit: past it every query is answered unknown (the run is inconclusive anyway)
 	solver3 func() *Solver // last resort: a fresh solver of the primary kind with the full time budget
 	fallbacks int
 	cfg     *HarnessCfg
@@ -276,6 +278,9 @@ func (ex *Exec) feasible(t *Term) SatResult {
 // checkWith asks the primary solver; on unknown/timeout the fallback solver decides
 // the same query from scratch (path condition re-asserted).
 func (ex *Exec) checkWith(t *Term) SatResult {
+	if !ex.deadline.IsZero() && time.Now().After(ex.deadline) {
+		return Unknown
+	}
 	ex.flush()
 	r := ex.solver.CheckWith(t)
 	if r == Unknown && ex.solver2 != nil {
